@@ -129,8 +129,10 @@ void *sexp_alloc(sexp ctx, size_t size) {
 #define KIT_GC_MAX 10
 #endif
 sexp kit_gc_obj[KIT_GC_MAX]; _Bool kit_gc_dead[KIT_GC_MAX]; int kit_gc_n, kit_gc_collections;
-sexp kit_gc_roots[8]; int kit_gc_nroots;
-void kit_gc_root(sexp x) { kit_gc_roots[kit_gc_nroots++] = x; }
+sexp kit_gc_roots[8]; int kit_gc_root_slots[8]; int kit_gc_nroots;
+void kit_gc_root(sexp x) { kit_gc_root_slots[kit_gc_nroots] = 0; kit_gc_roots[kit_gc_nroots++] = x; }
+/* a rooted harness-built record whose first n slots are references (they keep their referents alive) */
+void kit_gc_root_record(sexp x, int n) { kit_gc_root_slots[kit_gc_nroots] = n; kit_gc_roots[kit_gc_nroots++] = x; }
 void kit_gc_track(sexp x) {
   __CPROVER_assert(kit_gc_n < KIT_GC_MAX, "PROP number of allocations within the harness bound KIT_GC_MAX");
   __CPROVER_assume(kit_gc_n < KIT_GC_MAX);
@@ -138,7 +140,10 @@ void kit_gc_track(sexp x) {
 }
 static _Bool kit_gc_referenced(sexp ctx, int v) {
   sexp x = kit_gc_obj[v];
-  for (int r = 0; r < kit_gc_nroots; r++) if (kit_gc_roots[r] == x) return 1;
+  for (int r = 0; r < kit_gc_nroots; r++) {
+    if (kit_gc_roots[r] == x) return 1;
+    for (int k = 0; k < 4; k++) { if (k >= kit_gc_root_slots[r]) break; if (sexp_slot_ref(kit_gc_roots[r], k) == x) return 1; }
+  }
   struct sexp_gc_var_t *s = sexp_context_saves(ctx);
   for (int k = 0; k < 12; k++) { if (!s) break; if (s->var && *(s->var) == x) return 1; s = s->next; }
   for (int w = 0; w < kit_gc_n; w++) {
